@@ -194,7 +194,7 @@ func checkC13(r *Report) {
 		}
 	}
 	noWideSubtractRule(r, p, "C13.f/NO-WIDE-SUBTRACT", threeWayFns(p, "resolve"))
-	mapOrderRule(r, p, "C13.f/MAP-ORDER", threeWayFns(p, "resolve"))
+	mapOrderRule(r, p, "C13.f/MAP-ORDER", threeWayFns(p, "resolve", "resolve/dep", "resolve/version", "resolve/internal/attr"))
 	nSym := signSymmetryRule(r, p, "C13.f/SIGN-SYMMETRIC", threeWayFns(p, "resolve"))
 	loopReturnRule(r, p, "C13.f/LOOP-NONZERO", threeWayFns(p, "resolve"))
 	r.floor("C13.f/SIGN-SYMMETRIC", "three-way comparators of package resolve", nSym, 3)
